@@ -22,6 +22,18 @@ CLAIMED = {
    text="27 theorems for every width, depth (0, 1, powers of two and non-powers) and every input sequence: the register-level models of SyncFIFO and SyncFIFOBuffered (produce/consume/level with _incr's wrap, storage, the buffered variant's inner FIFO, output register and r_rdy register, depth-0/1 special cases) refine a bounded List queue (sync_refines, buffered_refines; Inv holds initially and is preserved), outputs are exactly the queue's view (r_rdy iff non-empty, r_data = head, w_rdy iff length < depth / implies, level = r_level = w_level = length), pushed = popped ++ held (order, no loss, no duplication), liveness (w_rdy with >=1 / >=2 free slots; oldest entry readable now or next cycle). A Spec monitor with the property's eight clauses judges observed traces of the real FIFOs; the model is tied by the complete reachable state graph of the implementation for depth <= 4, width <= 1 (thorough: more) and by long random walks over depths {0..33} and widths {0,1,4,9}.",
    note="Trusted: Lean kernel + standard axioms, Lean compiler for the driver, the harness. Reset is held de-asserted (reset behaviour is C03). The graph stream locates registers by signal name.",
    ref="DESIGN.md §6 C12"),
+ "C02": dict(cat="proof", tech="Lean 4 theorems (mutual structural recursion over nested DSL programs) + differential correspondence of simulated DSL programs against lowered-statement model and program-level spec",
+   text="Theorem lowering_sound: for every program (any nesting of If/Elif/Else, Switch/Case/Default with string, integer, unrepresentable-integer and multi-patterns) and every state, executing the Switch statements that the model of Module._pop_ctrl produces, the way the compiled simulator does, performs exactly the active assignments of the program as written (first non-zero condition / first matching case; at most one block per construct), in program order with exact right-hand-side values; with if_pattern_selects, default_matches, int_pattern_normalised, pattern_compare for the pattern encodings. The tie: random DSL programs are built through the real Module DSL, simulated (comb settle and sync edges, all driven signals compared after every step) and compared with (a) the Lean model run on the statements amaranth actually lowered, (b) the Lean model of the lowering itself, (c) the Lean Spec (last active write wins per bit via lbits/applyBits, driven bits start from init / previous value).",
+   note="Proved for all inputs: control-flow lowering and pattern encodings. The bit-level half (one assignment writes exactly the addressed bits; commit masks) is tied by correspondence only (impl = model = spec on every sampled case) and needs NoAlias because of recorded finding F9. FSM is exercised by C03/C20's generators only through its lowered Switch; the FSM-specific sentences (initial state, ongoing()) are checked by correspondence in this check's FSM stream when present. Trusted: as C01.",
+   ref="DESIGN.md §6 C02"),
+ "C16": dict(cat="proof", tech="Lean 4 theorems (linearity of the shift-and-reduce step, induction over word lists and cycle lists) + regenerated CRC catalogue checked by decide +kernel + correspondence against compute and the simulated Processor",
+   text="Theorems for all parameters, data widths (also wider than the CRC) and word lists: S_linear / batch, compute_eq_williams (Parameters.compute equals the bit-serial Williams model), hw_eq_compute / hw_eq_williams (the Processor's register after any list of (start, valid, data) cycles shows the CRC of the words since the last start), residue_match, residue_only (odd polynomials), even_poly_false_match (recorded finding: for even polynomials another trailer also matches). The catalogue (157 names, 112 parameter sets) and its published check values are re-extracted from /repo with Python's ast on every run into Generated/CrcCatalog.lean and catalog_checks / catalog_compute_checks / catalog_residues are re-proved by decide +kernel; a changed entry breaks the proof and the check then names the failing entry by running the real code. Correspondence: all catalogue entries x data widths {1,3,8,w,w+5} x messages, random parameter sets, constructor range checks, the simulated Processor with random start/valid scripts, match detection with true and corrupted trailers.",
+   note="Trusted: Lean kernel + standard axioms (decide +kernel adds none), the ast-based table translator, Lean compiler for the driver, the harness. Known finding C16-even-poly is reported as KNOWN-FINDING, not hidden.",
+   ref="DESIGN.md §6 C16"),
+ "C18": dict(cat="proof", tech="Lean 4 theorems (per-bit algebra over arbitrary port expression trees, event-sequence induction for registers, list induction for the single-use table) + exhaustive small-width correspondence against lib.io and the netlist builder",
+   text="29 theorems: port_algebra (+ _diff, _sim, _getitem, _slice, _add, _invert, _direction) for every expression tree of subscripts, + and ~ over the three port classes; buffer_legal / ffbuffer_legal; buffer_o / buffer_oe / buffer_i / bidir_loopback / buffer_width; ffbuffer_registers / ffbuffer_one_stage / ffbuffer_domains over arbitrary event sequences of two clocks; buffer_real_single / buffer_real_diff (inversion on the fabric side, n half complemented); single_use (+ _conflict, _accept, _exactly_one) for any sequence of buffer cells. Tied to /repo by exhaustive enumeration over widths 0-6 x all inversion masks x all directions x legal and illegal port/buffer combinations, all integer keys and unit-step slices, random trees of depth <= 4, simulation of Buffer and FFBuffer on SimulationPorts with hand-driven clocks, and netlists of real ports (IOBuffer cells collected and evaluated; double use must raise DriverConflict).",
+   note="Trusted: Lean kernel + standard axioms, Lean compiler for the driver, the harness and its small netlist interpreter. DDRBuffer is covered up to its constructor only.",
+   ref="DESIGN.md §6 C18"),
 }
 
 NOT_APPLICABLE = {
